@@ -78,7 +78,7 @@ func armPaths(p *Program, fn *ssa.Function, start *ssa.BasicBlock, stop map[*ssa
 			}
 		}
 		for _, a := range atoms {
-			if a.Kind == "cmp" && a.Op == "!=" && a.Y.Op == "Nil" && a.X.Op == "Ext" && strings.HasSuffix(a.X.Args[0].S, ".readStanza") {
+			if a.Kind == "cmp" && a.Op == "!=" && a.Y.Op == "Nil" && a.X.Op == "Ext" && strings.HasSuffix(a.X.Args[0].S, ".readStanza") && a.X.V != nil && isErrorType(a.X.V.Type()) {
 				arm = "read-error"
 			}
 		}
